@@ -65,7 +65,16 @@ def _one(R, rng, i, dtype_opt, method, subproc):
                          for _ in range(n)], dtype=dt)
     arr = vals.reshape(shape + ([nch] if nch > 1 else []))
     nii = os.path.join(d, "v.nii")
-    pipeline.write_nifti(nii, arr)
+    # reading options, identical for both pipelines: header scaling, --ignore-scaling, --input-min/max
+    slope = inter = None
+    rd_opts = []
+    if dt in ("uint8", "uint16") and rng.random() < 0.4:
+        slope, inter = rng.choice([(2.0, 0.0), (0.5, 10.0), (3.0, -1.0)])
+        if rng.random() < 0.5:
+            rd_opts.append("--ignore-scaling")
+    if dt in ("uint8", "uint16", "float32") and rng.random() < 0.2:
+        rd_opts += ["--input-min", rng.choice([0.0, 10.0]), "--input-max", rng.choice([255.0, 1000.0])]
+    pipeline.write_nifti(nii, arr, slope=slope, inter=inter)
 
     enc = "compressed_segmentation" if dt in ("uint32", "uint64") and rng.random() < 0.5 else None
     if dt == "uint64" and method in (None, "average") and dtype_opt != "segmentation":
@@ -83,15 +92,20 @@ def _one(R, rng, i, dtype_opt, method, subproc):
         acc["gzip"] = False
     sharding = rng.choice(["1,1,0", "2,0,1", "0,1,0"]) if storage == "sharded" else None
     ds_opts = (["--downscaling-method", method] if method else [])
+    if method in (None, "average") and rng.random() < 0.4:
+        ds_opts += ["--outside-value", rng.choice([0, 1.5, 200])]
     te_opts = (["--type", dtype_opt] if dtype_opt else []) + (["--encoding", enc] if enc else [])
     R.count(f"type={dtype_opt}:method={method}")
     R.count("subprocess" if not inproc else "in-process")
-    case = {"shape": shape, "data_type": dt, "channels": nch, "type": dtype_opt, "encoding": enc,
+    R.count("read-options:" + ("scaled" if slope else "plain") + (":ignore" if "--ignore-scaling" in rd_opts else "")
+            + (":minmax" if "--input-max" in rd_opts else "") + (":outside" if "--outside-value" in ds_opts else ""))
+    case = {"read_options": [str(x) for x in rd_opts], "slope_inter": [slope, inter],
+            "downscaling_options": [str(x) for x in ds_opts], "shape": shape, "data_type": dt, "channels": nch, "type": dtype_opt, "encoding": enc,
             "method": method, "storage": storage, "sharding": sharding}
 
     # ---- all-in-one
     A = os.path.join(d, "A")
-    a_args = [nii, A] + common + ds_opts + te_opts + (["--sharding", sharding] if sharding else [])
+    a_args = rd_opts + [nii, A] + common + ds_opts + te_opts + (["--sharding", sharding] if sharding else [])
     if sharding:
         # the all-in-one command has no --sharding option: only the step-by-step half is exercised
         rcA, soA, seA = None, "", ""
@@ -99,9 +113,9 @@ def _one(R, rng, i, dtype_opt, method, subproc):
         rcA, soA, seA = pipeline.run_script("volume_to_precomputed_pyramid", a_args, inprocess=inproc)
     # ---- step by step
     B = os.path.join(d, "B")
-    steps = [("volume_to_precomputed", ["--generate-info", nii, B] + (["--sharding", sharding, "--no-gzip"] if sharding else [])),
+    steps = [("volume_to_precomputed", ["--generate-info"] + rd_opts + [nii, B] + (["--sharding", sharding, "--no-gzip"] if sharding else [])),
              ("generate_scales_info", [os.path.join(B, "info_fullres.json"), B] + te_opts),
-             ("volume_to_precomputed", [nii, B] + common),
+             ("volume_to_precomputed", rd_opts + [nii, B] + common),
              ("compute_scales", [B] + common + ds_opts),
              ("scale_stats", [B])]
     rcs = []
@@ -180,6 +194,32 @@ def _one(R, rng, i, dtype_opt, method, subproc):
                 R.violation("convert-chunks --copy-info output differs from its source", case, {"why": why})
         except Exception as e:  # noqa: BLE001
             R.violation("convert-chunks --copy-info output unreadable", case, {"exc": f"{type(e).__name__}: {e}"[:200]})
+    # convert-chunks into a SHARDED destination (real subprocess: flushed by the exit handler); exit
+    # status 0 must mean every chunk is there and equal
+    if storage != "sharded" and i % 4 == 1 and all(len(set(x["chunk_sizes"][0])) == 1 for x in infoB["scales"]):
+        S = os.path.join(d, "S")
+        os.makedirs(S)
+        sinfo = json.loads(json.dumps(infoB))
+        for x in sinfo["scales"]:
+            x["sharding"] = {"@type": "neuroglancer_uint64_sharded_v1", "minishard_bits": 1, "shard_bits": 1,
+                             "preshift_bits": 0, "hash": "identity", "minishard_index_encoding": "raw",
+                             "data_encoding": "raw"}
+        with open(os.path.join(S, "info"), "w") as f:
+            json.dump(sinfo, f)
+        rc, so, se = pipeline.run_script("convert_chunks", [B, S], inprocess=False)
+        R.count("sharded-convert-step")
+        if rc == 0:
+            try:
+                _, scS = decode_all(S, {})
+                why = same(scB, scS)
+                if why:
+                    R.violation("convert-chunks into a sharded destination exited 0 but the contents differ", case,
+                                {"why": why})
+            except Exception as e:  # noqa: BLE001
+                R.violation("convert-chunks into a sharded destination exited 0 but the output is not readable",
+                            case, {"exc": f"{type(e).__name__}: {e}"[:200]})
+        else:
+            R.violation("convert-chunks into a sharded destination failed", case, {"rc": rc, "stderr": se[-300:]})
     shutil.rmtree(d, ignore_errors=True)
 
 
